@@ -1,7 +1,7 @@
 use tokio::{runtime::Handle, time};
 use tracing::{debug, error};
 
-use super::{Process, Scheduler, Task, TaskState};
+use super::{NodeKind, Process, Scheduler, Task, TaskState};
 use crate::{
     ActError, Action, Config, Engine, Package, Result, Vars, Workflow,
     cache::Cache,
@@ -250,7 +250,13 @@ impl Runtime {
                 }
 
                 // check task is allowed to emit message to client
-                if !e.state().is_pending() && !e.state().is_running() && !e.is_emit_disabled() {
+                // (a branch never is: one that is closed while it still waits in the queue has
+                // not disabled its messages yet)
+                if !e.state().is_pending()
+                    && !e.state().is_running()
+                    && !e.is_emit_disabled()
+                    && !e.is_kind(NodeKind::Branch)
+                {
                     let msg = e.create_message();
                     debug!("emit_message:{msg:?}");
                     rt.emitter().emit_message(&msg);
